@@ -65,7 +65,9 @@ Monitors(r) ==
       shapes == {Shape(trees[i]) : i \in 1 .. Len(trees)}
       nexp == IF ~(inScope /\ sent) THEN -1
               ELSE IF islat THEN NTreesLat(C, lat)
-              ELSE IF Len(w) <= 8 /\ f.n <= 3000 THEN NTrees(C, w) ELSE -1   \* cost is proportional to the count
+              \* the counting recursion is not memoised: its cost grows with the ambiguity,
+              \* so it is used on short inputs with few solutions (MCI_GLR covers all short strings)
+              ELSE IF Len(w) <= 6 /\ f.n <= 300 THEN NTrees(C, w) ELSE -1
       IsDer(t) == IF islat THEN IsDerivationLat(C, t, lat) ELSE IsDerivation(C, t, w, TRUE)
       c03 ==
         (IF gok /\ ~sent THEN {<<"accepted_nonsentence">>} ELSE {})
@@ -106,7 +108,7 @@ Monitors(r) ==
       \* binding of the OPERATIONAL module: GLRRuntime run on the same tokens over the
       \* same dumped table must predict the observed result and number of solutions
       \* (a difference is a DIVERGENCE, never a verdict)
-      model == IF islat \/ ~AllLexed(r) \/ cyc \/ r.partial \/ Len(w) > 7 \/ f.n > 1000 THEN [k |-> "skip", n |-> 0]
+      model == IF islat \/ ~AllLexed(r) \/ cyc \/ r.partial \/ Len(w) > 6 \/ f.n > 300 THEN [k |-> "skip", n |-> 0]
                ELSE LET G == Run(T, w)
                     IN [k |-> IF G.abort \/ G.hang THEN "abort" ELSE IF Len(G.acc) > 0 THEN "ok" ELSE "err",
                         n |-> IF Len(G.acc) > 0 /\ ~G.abort /\ ~G.hang THEN Solutions(G) ELSE 0]
